@@ -480,6 +480,13 @@ impl Database {
         }
 
         for other_group in &current_group.groups() {
+            // Merging the previous child may have moved a group above the current one: look up
+            // again where the destination keeps the current group.
+            if let Some(mut location) = self.find_node_location(current_group.uuid) {
+                location.push(current_group.uuid);
+                current_group_path = location;
+            }
+
             let mut new_group_location = current_group_path.clone();
             let other_group_uuid = other_group.uuid;
             new_group_location.push(other_group_uuid);
